@@ -31,7 +31,7 @@ var Metas = map[string]*Meta{
 			"inputs are sampled; the partition dimension is enumerated completely only for inputs <= 14 bytes",
 		},
 		Components: map[string]any{"real": realCommon, "simulated_environment": []string{"io.Reader (sim.Stream: delivery plan)", "storage: scratch directory on the real file system with plain / .gz / two-member .gz / missing / missing parent / path through a regular file"}, "stubbed": []string{}},
-		Runs:       map[string]int{"quick": 12000, "thorough": 600000},
+		Runs:       map[string]int{"quick": 12000, "thorough": 1200000},
 		Run:        RunC06,
 		Setup:      SetupC18, // the same descriptor budget (RLIMIT_NOFILE=200): the "no descriptor left" configuration needs it
 	},
